@@ -1,4 +1,446 @@
 package main
 
-func cmdCheck(args []string) int  { return 2 }
-func cmdReplay(args []string) int { return 2 }
+import (
+	"encoding/json"
+	"flag"
+	"fmt"
+	"os"
+	"path/filepath"
+	"runtime"
+	"sort"
+	"strconv"
+	"strings"
+	"sync"
+	"time"
+)
+
+// ---------- known findings ----------
+
+type Finding struct {
+	Property   string `json:"property"`
+	Obligation string `json:"obligation"`
+	CarveOut   string `json:"carve_out"` // contract expression over the function's parameters / ghosts
+	Note       string `json:"note"`
+	Witness    string `json:"witness,omitempty"`
+}
+
+type FindingsFile struct {
+	Findings []Finding `json:"findings"`
+	Fixed    []string  `json:"fixed"`
+}
+
+func loadFindings() (*FindingsFile, error) {
+	ff := &FindingsFile{}
+	b, err := os.ReadFile(filepath.Join(verifDir(), "known_findings.json"))
+	if err != nil {
+		if os.IsNotExist(err) {
+			return ff, nil
+		}
+		return nil, err
+	}
+	if err := json.Unmarshal(b, ff); err != nil {
+		return nil, fmt.Errorf("known_findings.json: %v", err)
+	}
+	return ff, nil
+}
+
+// ---------- evidence ----------
+
+type fnEvidence struct {
+	Name        string   `json:"name"`
+	File        string   `json:"contract_at"`
+	Instrs      int      `json:"ssa_instructions"`
+	Obligations int      `json:"obligations"`
+	Discharged  int      `json:"discharged"`
+	Rounds      int      `json:"houdini_rounds"`
+	Dropped     []string `json:"auto_candidates_dropped,omitempty"`
+	Trusted     string   `json:"trusted,omitempty"`
+}
+
+type obSample struct {
+	Name   string `json:"obligation"`
+	Clause string `json:"clause"`
+	Solver string `json:"solver"`
+	Ms     int64  `json:"ms"`
+	Kind   string `json:"kind"`
+}
+
+var droppedByExtraction = []string{
+	"integer overflow of int counters / lengths / int64 data arithmetic (mathematical integers, A-INT)",
+	"slice capacity (s[:hi] is required to satisfy hi <= len); append's in-place/reallocate choice is nondeterministic",
+	"string and []byte are identified as values (conversion keeps the bytes; []byte(\"\") is non-nil)",
+	"map iteration order is arbitrary; allocation never fails",
+	"float64 arithmetic and comparisons are uninterpreted functions (no IEEE facts are used)",
+	"standard-library leaves are replaced by the axioms listed under trusted_base",
+	"callees under contract are represented by their contracts; callees without contract are executed in place when loop-free, otherwise their results and the heap are havocked",
+	"typed nil pointers stored in interfaces are not distinguished from nil interfaces",
+	"termination is proved only for loops with a decreases clause",
+}
+
+func cmdCheck(args []string) int {
+	fl := flag.NewFlagSet("check", flag.ExitOnError)
+	tier := fl.String("tier", os.Getenv("VERIF_TIER"), "quick | thorough")
+	var prop string
+	if len(args) > 0 && !strings.HasPrefix(args[0], "-") {
+		prop, args = args[0], args[1:]
+	}
+	fl.Parse(args)
+	if prop == "" && fl.NArg() > 0 {
+		prop = fl.Arg(0)
+	}
+	if prop == "" {
+		usage()
+	}
+	if *tier != "thorough" {
+		*tier = "quick"
+	}
+	seed := 0
+	if s := os.Getenv("VERIF_SEED"); s != "" {
+		seed, _ = strconv.Atoi(s)
+	}
+	t0 := time.Now()
+	die := func(format string, a ...any) int {
+		fmt.Printf("ENGINE-ERROR property=%s %s\n", prop, fmt.Sprintf(format, a...))
+		rp := writeReplay(prop, "engine-error", map[string]any{"obligation": "engine-error", "error": fmt.Sprintf(format, a...)})
+		fmt.Printf("VIOLATION property=%s replay=%s no-failing-input-found\n", prop, rp)
+		return 1
+	}
+	p, err := loadProgram(repoDir())
+	if err != nil {
+		return die("cannot load the package: %v", err)
+	}
+	sp, err := loadSpecs(repoDir(), verifDir())
+	if err != nil {
+		return die("cannot load the contracts: %v", err)
+	}
+	ff, err := loadFindings()
+	if err != nil {
+		return die("%v", err)
+	}
+	var specs []*FuncSpec
+	for _, k := range sp.Order {
+		fs := sp.Funcs[k]
+		if fs == nil {
+			fs = sp.Lemmas[k]
+		}
+		if fs == nil || fs.Kind == "iface" || fs.Kind == "functype" || fs.Pure && len(fs.Ensures) == 0 {
+			continue
+		}
+		for _, pr := range fs.Props {
+			if pr == prop {
+				specs = append(specs, fs)
+			}
+		}
+	}
+	if len(specs) == 0 {
+		return die("no function is under contract for this property")
+	}
+	quick, full := 3, 10
+	if *tier == "thorough" {
+		quick, full = 5, 60
+	}
+	outDir := filepath.Join(verifDir(), "out", prop)
+	os.RemoveAll(outDir)
+	// verify the functions concurrently; solver processes are bounded globally
+	outs := make([]*funcOutcome, len(specs))
+	var wg sync.WaitGroup
+	par := make(chan struct{}, 6)
+	for i, fs := range specs {
+		i, fs := i, fs
+		wg.Add(1)
+		par <- struct{}{}
+		go func() {
+			defer wg.Done()
+			defer func() { <-par }()
+			if fs.Trusted != "" {
+				outs[i] = &funcOutcome{Key: fs.Key, Spec: fs}
+				return
+			}
+			outs[i] = verifyOne(p, sp, fs, prop, outDir, runtime.NumCPU(), quick, full)
+		}()
+	}
+	wg.Wait()
+
+	// expected obligation counts (vacuity guard)
+	expect := map[string]int{}
+	if b, err := os.ReadFile(filepath.Join(verifDir(), "expect", prop+".json")); err == nil {
+		json.Unmarshal(b, &expect)
+	}
+	var fnEv []fnEvidence
+	var samples []obSample
+	var slow []obSample
+	bySolver := map[string]int{}
+	solverMs := map[string]int64{}
+	nOb, nDis, nCover, nCoverOK := 0, 0, 0, 0
+	violations := 0
+	var knownLines []string
+	var knownEv []map[string]any
+	trusted := map[string]bool{}
+	havocked := map[string]bool{}
+	warnings := map[string]bool{}
+	counts := map[string]int{}
+	var assumedContracts []string
+	for _, o := range outs {
+		fe := fnEvidence{Name: o.Key, File: fmt.Sprintf("%s:%d", o.Spec.File, o.Spec.Line), Instrs: o.NInstr, Rounds: o.Rounds, Dropped: o.Dropped, Trusted: o.Spec.Trusted}
+		if o.Spec.Trusted != "" {
+			assumedContracts = append(assumedContracts, o.Key+": "+o.Spec.Trusted)
+			fnEv = append(fnEv, fe)
+			continue
+		}
+		if o.Err != "" {
+			violations++
+			rp := writeReplay(prop, o.Key+"#engine", map[string]any{"obligation": o.Key + "#engine.unsupported", "error": o.Err,
+				"note": "the function could not be brought through the VC generator; none of its obligations is established"})
+			fmt.Printf("VIOLATION property=%s replay=%s no-failing-input-found\n", prop, rp)
+			fmt.Printf("  %s: %s\n", o.Key, o.Err)
+			fnEv = append(fnEv, fe)
+			continue
+		}
+		for k := range o.Gen.trustedUse {
+			trusted[k] = true
+		}
+		for _, h := range o.Gen.havocked {
+			havocked[h] = true
+		}
+		for _, w := range o.Warnings {
+			warnings[w] = true
+		}
+		for _, r := range o.Results {
+			if r.Ob.Cover {
+				nCover++
+				if r.OK() {
+					nCoverOK++
+				} else {
+					violations++
+					rp := writeReplay(prop, r.Ob.Name, map[string]any{"obligation": r.Ob.Name, "clause": r.Ob.Clause, "verdict": r.Verdict,
+						"note": "vacuity: the contract's hypotheses are contradictory (cover query refuted)", "solver_output": firstLines(r.Output, 20)})
+					fmt.Printf("VIOLATION property=%s replay=%s no-failing-input-found\n", prop, rp)
+					fmt.Printf("  vacuous contract: %s\n", r.Ob.Name)
+				}
+				continue
+			}
+			nOb++
+			fe.Obligations++
+			counts[o.Key]++
+			s := obSample{Name: r.Ob.Name, Clause: r.Ob.Clause, Solver: r.Solver, Ms: r.Ms, Kind: r.Ob.Kind}
+			if r.OK() {
+				nDis++
+				fe.Discharged++
+				bySolver[r.Solver]++
+				solverMs[r.Solver] += r.Ms
+				slow = append(slow, s)
+				if len(samples) < 6 && (r.Ob.Kind == "ensures" || r.Ob.Kind == "inv.preserve") && len(r.Ob.Props) > 0 {
+					samples = append(samples, s)
+				}
+				continue
+			}
+			// failed: known finding?
+			handled := false
+			for _, f := range ff.Findings {
+				if f.Property != prop || f.Obligation != r.Ob.Name {
+					continue
+				}
+				ok, why := residual(o, r, f, full)
+				if ok {
+					handled = true
+					nOb--
+					fe.Obligations--
+					line := fmt.Sprintf("KNOWN-FINDING: property=%s %s: %s", prop, r.Ob.Name, f.Note)
+					knownLines = append(knownLines, line)
+					knownEv = append(knownEv, map[string]any{"obligation": r.Ob.Name, "carve_out": f.CarveOut, "note": f.Note, "residual_obligation": "discharged (" + why + ")"})
+				}
+				break
+			}
+			if handled {
+				continue
+			}
+			violations++
+			reportViolation(prop, o, r)
+		}
+		// vacuity: obligation count must not fall below the recorded one
+		if want, ok := expect[o.Key]; ok && counts[o.Key] < want {
+			violations++
+			rp := writeReplay(prop, o.Key+"#count", map[string]any{"obligation": o.Key + "#obligation-count", "note": fmt.Sprintf("expected at least %d obligations, generated %d", want, counts[o.Key])})
+			fmt.Printf("VIOLATION property=%s replay=%s no-failing-input-found\n", prop, rp)
+		}
+		fnEv = append(fnEv, fe)
+	}
+	for k, want := range expect {
+		if _, ok := counts[k]; !ok && want > 0 {
+			found := false
+			for _, o := range outs {
+				found = found || o.Key == k
+			}
+			if !found {
+				violations++
+				rp := writeReplay(prop, k+"#missing", map[string]any{"obligation": k + "#missing", "note": "a function recorded as under contract for this property is no longer checked"})
+				fmt.Printf("VIOLATION property=%s replay=%s no-failing-input-found\n", prop, rp)
+			}
+		}
+	}
+	if os.Getenv("KVC_RECORD_EXPECT") == "1" && violations == 0 {
+		os.MkdirAll(filepath.Join(verifDir(), "expect"), 0o755)
+		b, _ := json.MarshalIndent(counts, "", " ")
+		os.WriteFile(filepath.Join(verifDir(), "expect", prop+".json"), b, 0o644)
+	}
+	for _, l := range knownLines {
+		fmt.Println(l)
+	}
+	sort.Slice(slow, func(i, j int) bool { return slow[i].Ms > slow[j].Ms })
+	if len(slow) > 10 {
+		slow = slow[:10]
+	}
+	if len(samples) == 0 && len(slow) > 0 {
+		samples = slow[:1]
+	}
+	tb := []string{
+		"T-SSA: go/packages + go/types + go/ssa (x/tools v0.29.0) translate the working tree faithfully",
+		"T-ENG: the engine's SSA -> SMT translation (/verif/engine), exercised by the must-fail selftest corpus",
+		"T-SMT: an unsat answer of z3 4.8.12, z3 5.1.0 or cvc5 1.0.3",
+		"T-AX: byte-string order/prefix/concatenation axioms of the SMT prelude (engine/cmd/kvc/smt.go)",
+	}
+	for _, k := range sortedKeys(trusted) {
+		tb = append(tb, "assumed: "+k)
+	}
+	for _, a := range assumedContracts {
+		tb = append(tb, "assumed contract (body not verified): "+a)
+	}
+	level, _ := propLevel(prop)
+	ev := map[string]any{
+		"property_id": prop,
+		"tier":        *tier,
+		"seed":        seed,
+		"level":       level,
+		"wall_s":      time.Since(t0).Seconds(),
+		"violations":  violations,
+		"coverage": map[string]any{
+			"obligations":                   nOb,
+			"discharged":                    nDis,
+			"checker_cmd":                   "/verif/bin/kvc check " + prop + " --tier " + *tier,
+			"trusted_base":                  tb,
+			"explanation":                   propExplanation(prop),
+			"samples":                       samples,
+			"functions_under_contract":      fnEv,
+			"by_solver":                     bySolver,
+			"solver_ms":                     solverMs,
+			"slowest":                       slow,
+			"cover_queries":                 map[string]int{"asked": nCover, "satisfiable_or_undecided": nCoverOK},
+			"known_findings":                knownEv,
+			"bounded":                       []any{},
+			"dropped_by_extraction":         droppedByExtraction,
+			"uncontracted_callees_havocked": sortedKeys(havocked),
+			"imprecise_operations":          sortedKeys(warnings),
+			"contracts_from":                sp.Source,
+			"contract_files":                sp.Files,
+		},
+		"assumptions": propAssumptions(prop, sp),
+	}
+	os.MkdirAll(filepath.Join(verifDir(), "evidence"), 0o755)
+	b, _ := json.MarshalIndent(ev, "", " ")
+	os.WriteFile(filepath.Join(verifDir(), "evidence", prop+".json"), b, 0o644)
+	fmt.Printf("%s: %d functions, %d/%d obligations discharged, %d cover queries, %d known findings, %d violations, %.1fs\n",
+		prop, len(specs), nDis, nOb, nCover, len(knownLines), violations, time.Since(t0).Seconds())
+	if violations > 0 {
+		return 1
+	}
+	return 0
+}
+
+// residual re-asks a failed obligation outside a known finding's carve-out.
+func residual(o *funcOutcome, r *Result, f Finding, secs int) (ok bool, why string) {
+	defer func() {
+		if rec := recover(); rec != nil {
+			ok, why = false, fmt.Sprint(rec)
+		}
+	}()
+	g := o.Gen
+	ce, err := parseCE(f.CarveOut)
+	if err != nil {
+		return false, err.Error()
+	}
+	vars := map[string]CV{}
+	for k, v := range g.paramVals {
+		vars[k] = v
+	}
+	for k, v := range g.ghostVals {
+		vars[k] = v
+	}
+	env := &Env{g: g, st: g.entry, old: g.entry, vars: vars, pc: "true", hyp: true}
+	c := env.tr(ce, false)
+	ob := *r.Ob
+	ob.PC = and(r.Ob.PC, not(c.S))
+	ob.Name = r.Ob.Name + ".residual"
+	res := solveAll(g, []*Oblig{&ob}, filepath.Dir(r.File), 1, 3, secs)
+	if res[0].OK() {
+		return true, res[0].Solver
+	}
+	return false, res[0].Verdict
+}
+
+func writeReplay(prop, name string, rec map[string]any) string {
+	dir := filepath.Join(verifDir(), "replays", prop)
+	os.MkdirAll(dir, 0o755)
+	path := filepath.Join(dir, sanitize(name)+".json")
+	rec["property"] = prop
+	b, _ := json.MarshalIndent(rec, "", " ")
+	os.WriteFile(path, b, 0o644)
+	return path
+}
+
+func reportViolation(prop string, o *funcOutcome, r *Result) {
+	rec := map[string]any{
+		"obligation": r.Ob.Name, "kind": r.Ob.Kind, "clause": r.Ob.Clause, "function": r.Ob.Fn, "position": r.Ob.Pos,
+		"verdict": r.Verdict, "solver": r.Solver, "solvers_tried": r.Tried, "smt_file": r.File, "solver_output": firstLines(r.Output, 30),
+	}
+	confirmed := false
+	if r.Verdict != "error" {
+		ps, note := concreteModel(o.Gen, r, 20)
+		rec["concrete_model_pass"] = note
+		if ps != nil {
+			rec["model"] = ps
+			ok, transcript, src := replayOnRealCode(o, r, ps)
+			rec["replay_transcript"] = transcript
+			rec["replay_test_source"] = src
+			rec["replay_confirmed"] = ok
+			confirmed = ok
+		}
+	}
+	rp := writeReplay(prop, r.Ob.Name, rec)
+	if confirmed {
+		fmt.Printf("VIOLATION property=%s replay=%s\n", prop, rp)
+	} else {
+		fmt.Printf("VIOLATION property=%s replay=%s no-failing-input-found\n", prop, rp)
+	}
+	fmt.Printf("  failed obligation %s (%s, %s) — %s [%s]\n", r.Ob.Name, r.Verdict, r.Solver, r.Ob.Clause, r.Ob.Pos)
+}
+
+func cmdReplay(args []string) int {
+	if len(args) != 1 {
+		usage()
+	}
+	b, err := os.ReadFile(args[0])
+	if err != nil {
+		fmt.Fprintln(os.Stderr, err)
+		return 2
+	}
+	var rec map[string]any
+	if err := json.Unmarshal(b, &rec); err != nil {
+		fmt.Fprintln(os.Stderr, err)
+		return 2
+	}
+	fmt.Printf("obligation: %v\nclause: %v\nverdict: %v (%v)\n", rec["obligation"], rec["clause"], rec["verdict"], rec["solver"])
+	src, _ := rec["replay_test_source"].(string)
+	if src == "" {
+		fmt.Println("no replay test was generated for this obligation (no concrete model); solver output:")
+		fmt.Println(rec["solver_output"])
+		return 1
+	}
+	ok, out := runReplayTest(src)
+	fmt.Println(out)
+	if ok {
+		fmt.Println("REPLAY-CONFIRMED")
+		return 1
+	}
+	fmt.Println("REPLAY-NOT-CONFIRMED")
+	return 0
+}
